@@ -130,7 +130,7 @@ def _start_pytest(tmp, dirs, procs):
     paths = [os.path.join(src, "psyclone", "tests", d) for d in dirs]
     paths = [p for p in paths if os.path.exists(p)]
     cmd = [sys.executable, "-m", "pytest", "-p", "c26_pytest_recorder",
-           "-p", "no:cacheprovider", "-q", "-n", str(procs), "--timeout=600",
+           "-p", "no:cacheprovider", "-q", "-n", str(procs), "--timeout=1800",
            "-o", "addopts="] + paths
     log = open(os.path.join(tmp, "pytest.log"), "w")
     p = subprocess.Popen(cmd, cwd=cwd, env=env, stdout=log,
@@ -175,12 +175,17 @@ def _driver_jobs(tier):
     from pv import c26_driver
     progs = c26_driver.QUICK_PROGRAMS if tier == "quick" \
         else list(c26_driver.PROGRAMS)
+    if os.environ.get("C26_PROGRAMS"):      # binding demonstrations only
+        progs = [p for p in progs if p in os.environ["C26_PROGRAMS"].split(",")]
     jobs, planned = [], {}
     for prog in progs:
         attempts, nnodes, names = c26_driver.plan(prog, tier)
         total = len(attempts)
         if tier == "quick":
-            attempts = attempts[:QUICK_QUOTA.get(prog, 4000) // _fast()]
+            quota = QUICK_QUOTA.get(prog, 4000)
+            if not os.environ.get("C26_PROGRAMS"):
+                quota //= _fast()
+            attempts = attempts[:quota]
         planned[prog] = {"nodes": nnodes, "transformations": len(names),
                          "planned": total, "run": len(attempts)}
         for k in range(0, len(attempts), CHUNK):
@@ -368,6 +373,7 @@ def run(tier):
                          "events": dstats, "crash_types": crash_types,
                          "text_written": dcounts.get("text_written", 0),
                          "text_inferred_unchanged": dcounts.get("text_inferred", 0),
+                         "writer_flaky": dcounts.get("writer_flaky", 0),
                          "fp_stability_rechecks":
                              sum(d["stats"]["fp_recheck"] for d in dumps)}
         # 3. the test-suite traces
